@@ -67,6 +67,33 @@ def run(ctx):
                 r1.bad(key, 'token %s means %s to the checker but %s to the runtime' % (tok, ct[tok], lt[tok]), loc=loc)
             else:
                 r1.ok(key, detail=lt[tok])
+    # logical / bitwise operand table: what the checker types as a bit-string operation is what the interpreter evaluates
+    lob = 'trust_runtime::eval::ops::logical_or_bitwise'
+    ibs = [k for k in fx.fns if k.endswith('types::defs::Type::is_bit_string')]
+    rt_set, ck_set = set(), set()
+    for m in fx.matches_in(lob):
+        if m['sty'].startswith('(trust_runtime::value::types::Value, trust_runtime::value::types::Value)'):
+            for arm in m['arms']:
+                for pat in arm['pats']:
+                    vs = re.findall(r'Value::(\w+)\(', pat)
+                    if len(vs) == 2 and vs[0] == vs[1]:
+                        rt_set.add(vs[0])
+    if ibs:
+        for m in fx.matches_in(ibs[0]):
+            for arm in m['arms']:
+                if any(r == 'lit:bool:true' for r in arm['refs']):
+                    ck_set |= {pat.split('::')[-1] for pat in arm['pats'] if pat.startswith('variant:')}
+    r1.saw(len(rt_set) + len(ck_set))
+    if not rt_set or not ck_set:
+        r1.bad('anchor-missing|bit-string-table', 'operand tables of the logical operators not found (runtime %s, checker %s)' % (sorted(rt_set), sorted(ck_set)))
+    elif rt_set == ck_set:
+        r1.ok('bit-string-operands', detail=sorted(rt_set))
+    else:
+        only_ck = sorted(ck_set - rt_set)
+        only_rt = sorted(rt_set - ck_set)
+        r1.bad('bit-string-operands', 'AND/OR/XOR operand types disagree: %s' % '; '.join(x for x in (
+            ('the checker accepts %s, which the interpreter rejects with TypeMismatch' % only_ck) if only_ck else '',
+            ('the interpreter evaluates %s, which the checker rejects' % only_rt) if only_rt else '') if x), loc='%s:%d' % (fx.fns[lob]['file'], fx.fns[lob]['line']) if lob in fx.fns else None)
     # kernels: arm X uses machine op X on (a, b)
     MACH = {'Add': {'Add', 'AddWithOverflow'}, 'Sub': {'Sub', 'SubWithOverflow', 'checked_sub'}, 'Mul': {'Mul', 'MulWithOverflow'}, 'Div': {'Div'}, 'Mod': {'Rem'},
             'Lt': {'Lt', 'lt'}, 'Le': {'Le', 'le'}, 'Gt': {'Gt', 'gt'}, 'Ge': {'Ge', 'ge'}, 'And': {'BitAnd', 'bitand'}, 'Or': {'BitOr', 'bitor'}, 'Xor': {'BitXor', 'bitxor'}}
